@@ -5,7 +5,7 @@ CONSTANTS
     Parts = {"bearer", "xfcc", "xfcc2", "cn", "noise"}
     Unescape = "quote"
     BearerTail = 3
-    XKeys = {"K_hash", "K_cert", "K_subject", "K_dns", "K_chain"}
+    XKeys = {"K_hash", "K_cert", "K_subject", "K_uri", "K_dns", "K_by", "K_chain"}
     XAtoms = {"c", "COMMA", "SEMI", "EQ", "Q", "SP", "PC", "PQ", "ESC"}
     XLen = 2
     XElems = 2
